@@ -40,6 +40,9 @@ BASES = [
     {"cols": [{"name": "x", "dtype": "int64", "values": []}], "index": None},
     {"cols": [{"name": "x", "dtype": "int64", "values": [1, 1, 2, 2]}, {"name": "y", "dtype": "int64", "values": [5, 6, 7, 8]}],
      "index": None},
+    # frames whose grey (dtype-only) variants have the very same content hash: all-zero ints vs floats, 0/1 ints vs bools
+    {"cols": [{"name": "z", "dtype": "int64", "values": [0, 0]}], "index": None},
+    {"cols": [{"name": "flag", "dtype": "int64", "values": [1, 0, 1]}], "index": None},
 ]
 
 DIFFER_VARIANTS = ["value", "rename", "droprow", "swaprows", "swapcols", "addcol", "dropcol", "addrow",
